@@ -18,6 +18,7 @@ T == ndJsonDeserialize(IOEnv.TRACE_FILE)
 
 NodeVerdict(t) ==
     IF t.prop = "C06" THEN (IF t.asserted THEN "ok" ELSE Truthful(t))
+    ELSE IF t.meta_rows > 0 THEN "MetaEmpty"          \* the declared schema is an EMPTY object of the right type: consumers use it as the empty partition
     ELSE LET v == FirstMismatch(t.decl, t.pschemas, 1) IN
          IF v # "ok" THEN v
          ELSE IF t.has_result THEN SchemaMatches(t.decl, t.rschema) ELSE "ok"
